@@ -40,4 +40,23 @@ theorem fdiv_sub_fmod (a b : Int) (hb : b ≠ 0) : (a - a.fmod b).fdiv b = a.fdi
   rw [this]
   exact Int.mul_fdiv_cancel_left _ hb
 
+/-- Python's `int(x)` on a float (truncation of num/den) is ISO's truncate. -/
+theorem ratTrunc_eq (q : Rat) : PyNum.ratTrunc q = Iso.truncate q := by
+  unfold PyNum.ratTrunc Iso.truncate Rat.floor Rat.ceil
+  by_cases hd : q.den = 1
+  · simp [hd]
+  · have hnd : ¬ ((q.den : Int) ∣ q.num) := by
+      intro h
+      rw [Int.ofNat_dvd_left] at h
+      have := Nat.Coprime.eq_one_of_dvd q.reduced.symm h
+      exact hd this
+    simp only [hd, if_false]
+    rw [Int.tdiv_eq_ediv]
+    have hpos : (0 : Int) < q.den := by have := q.den_pos; omega
+    by_cases hn : 0 ≤ q.num
+    · have : 0 ≤ q := Rat.num_nonneg.mp hn
+      simp [hn, this]
+    · have : ¬ 0 ≤ q := fun h => hn (Rat.num_nonneg.mpr h)
+      simp [hn, this, hnd, Int.sign_eq_one_of_pos hpos]
+
 end ProbLogProofs.ArithLemmas
